@@ -13,6 +13,7 @@ from vtlengine.AST.ASTTemplate import ASTTemplate
 from vtlengine.AST.Grammar._cpp_parser import LITERAL_NAMES
 from vtlengine.AST.Grammar.tokens import (
     AGGREGATE,
+    AND,
     APPLY,
     ATTRIBUTE,
     CALC,
@@ -40,6 +41,7 @@ from vtlengine.AST.Grammar.tokens import (
     MOD,
     NOT,
     NVL,
+    OR,
     PLUS,
     POWER,
     RANDOM,
@@ -101,6 +103,7 @@ class ASTString(ASTTemplate):
     pretty: bool = False
     is_first_assignment: bool = False
     is_from_agg: bool = False  # Handler to write grouping at aggr level
+    break_boolean_ops: bool = False  # Handler to break a filter condition after each and/or
 
     def render(self, ast: AST.AST) -> str:
         self.vtl_script = ""
@@ -333,8 +336,8 @@ class ASTString(ASTTemplate):
             return f"{node.op}({self.visit(node.left)}, {self.visit(node.right)})"
         elif node.op == MEMBERSHIP:
             return f"{self.visit(node.left)}{node.op}{self.visit(node.right)}"
-        if self.pretty:
-            return f"{self.visit(node.left)} {node.op} {self.visit(node.right)}"
+        if self.pretty and self.break_boolean_ops and node.op in (AND, OR):
+            return f"{self.visit(node.left)} {node.op} {nl}{tab * 5}{self.visit(node.right)}"
 
         return f"{self.visit(node.left)} {node.op} {self.visit(node.right)}"
 
@@ -696,10 +699,12 @@ class ASTString(ASTTemplate):
             drop_sep = f",{nl}{tab * 3}" if len(node.children) > 1 else ""
             body = f"{drop_sep.join([self.visit(x) for x in node.children])}{nl}{tab * 2}"
         elif node.op == FILTER and self.pretty:
+            # Line breaks go after the and/or operators themselves, never into the text of a
+            # string literal or quoted name that happens to contain " and " / " or "
+            previous = self.break_boolean_ops
+            self.break_boolean_ops = True
             condition = self.visit(node.children[0])
-            if " and " in condition or " or " in condition:
-                for op in (" and ", " or "):
-                    condition = condition.replace(op, f"{op}{nl}{tab * 5}")
+            self.break_boolean_ops = previous
             body = f"{nl}{tab * 4}{condition}{nl}{tab * 2}"
         else:
             body = child_sep.join([self.visit(x) for x in node.children])
